@@ -1,6 +1,6 @@
 (* C02 - no lint fails internally on any input the parser accepts.  Statements only
    (proofs: Framework/FatalFacts.v, Kernels/Walkers.v, Kernels/BodiesFacts.v). *)
-From ZL Require Import Base.Bytes Framework.Core Framework.LifecycleFacts Framework.FatalFacts Kernels.Walkers Kernels.Bodies Kernels.BodiesFacts Kernels.Crl Kernels.QcStatem Kernels.Arpa.
+From ZL Require Import Base.Bytes Framework.Core Framework.LifecycleFacts Framework.FatalFacts Kernels.Walkers Kernels.Bodies Kernels.BodiesFacts Kernels.Crl Kernels.QcStatem Kernels.Arpa Kernels.Dsa Kernels.Der Kernels.DerFacts Kernels.CaKu.
 Open Scope Z_scope.
 
 (* a fatal status is an explicit decision of the body, a configuration error, or a recovered panic *)
@@ -103,6 +103,30 @@ Proof. exact guard_needed. Qed.
 Theorem c02_arpa_indexing_safe : forall labels, assemble_v6 labels <> OOR.
 Proof. exact assemble_v6_safe. Qed.
 
+(* the four DSA key lints (Kernels/Dsa.v) are total functions of the four positive integers of the key - P = 1, Q longer
+   than P, Y beyond P included - and answer pass or error; the subgroup lint decides exactly Y^Q = 1 (mod P) *)
+Theorem c02_dsa_lints_total : forall k s, In s (all_dsa_lints k) -> s = 3 \/ s = 6.
+Proof. exact dsa_lints_range. Qed.
+
+Theorem c02_dsa_subgroup_spec : forall k, well_formed k -> (l_subgroup k = 3 <-> (dY k ^ dQ k) mod dP k = 1).
+Proof. exact subgroup_spec. Qed.
+
+Theorem c02_dsa_p_one_decided : forall k, dP k = 1 -> l_subgroup k = 6.
+Proof. exact subgroup_p_one. Qed.
+
+(* the raw walkers over the SAN / IAN extension value never run out of steps (each read consumes at least two octets)
+   and are defined on every byte string: NA, pass, error or fatal, never a failure of the loop *)
+Theorem c02_der_read_consumes : forall s t rest, read_tlv s = Some (t, rest) -> (length rest + 2 <= length s)%nat.
+Proof. exact read_tlv_shrinks. Qed.
+
+Theorem c02_der_walker_total : forall value, l_empty_name value <> 0.
+Proof. exact empty_name_total. Qed.
+
+(* nineteen bodies that dereference the extension their CheckApplies tests for (Kernels/CaKu.v): with the gate in the
+   model, every status is NA, pass, notice, warn or error *)
+Theorem c02_ca_ku_gated : forall v s, In s (all_ca_ku_lints v) -> s = 1 \/ s = 3 \/ s = 4 \/ s = 5 \/ s = 6.
+Proof. exact ca_ku_range. Qed.
+
 Print Assumptions c02_fatal_origin.
 Print Assumptions c02_framework.
 Print Assumptions c02_plain.
@@ -125,3 +149,9 @@ Proof. repeat split; try reflexivity. intros _. vm_compute. discriminate. Qed.
 Print Assumptions c02_qc_assert_safe.
 Print Assumptions c02_qc_guard_needed.
 Print Assumptions c02_arpa_indexing_safe.
+Print Assumptions c02_dsa_lints_total.
+Print Assumptions c02_dsa_subgroup_spec.
+Print Assumptions c02_dsa_p_one_decided.
+Print Assumptions c02_der_read_consumes.
+Print Assumptions c02_der_walker_total.
+Print Assumptions c02_ca_ku_gated.
